@@ -44,7 +44,7 @@ ASSUMPTIONS = [
     "an exception escaping pump_proxy_event is tolerated (the run loop logs and continues) as long as the flow is handed back",
 ]
 MUST_REACH = {"scenarios": 40, "failpoint_runs": 500, "clean_runs": 40, "taken_flows_released": 30, "state_transfers_compared": 500,
-              "exceptions_escaped_pump": 50, "mitm_side_runs": 6, "e2e_runs": 100, "e2e_states_compared": 150, "session_only_capdata": 5, "locally_served_assets": 3, "line_failpoint_runs": 300}
+              "exceptions_escaped_pump": 50, "mitm_side_runs": 6, "e2e_runs": 100, "e2e_states_compared": 150, "session_only_capdata": 5, "locally_served_assets": 3, "line_failpoint_runs": 300, "mitm_history_runs": 6}
 
 FAIL = {"armed_at": None, "count": 0, "in_handler": 0, "points": [], "fired": None}
 TOOL_ID = 3
@@ -467,6 +467,63 @@ def mitm_variants(ctx):
         ctx.nontrivial(("mitm", variant))
 
 
+def mitm_histories(ctx):
+    """Several items through ONE run of the callback pump: an item that names no live flow (a replay request, a hand-back for a
+    flow that is gone) must not resume the flow handled just before it - that flow may have been intercepted again since."""
+    from hippolyzer.lib.proxy.http_proxy import IPCInterceptionAddon
+    for filler in ("replay", "callback_unknown", "preempt_unknown", "bogus"):
+        fc = PicklingFlowContext()
+        addon = IPCInterceptionAddon(fc)
+        flow = make_flow("https://www.example.invalid/a", resp=True, resp_content=b"server body")
+        resumes = []
+        flow.resume = lambda: resumes.append(1)
+        addon.request(flow)
+        fc.to_proxy_queue.put(("callback", flow.id, flow.get_state()))
+        pump_mitm(addon)
+        ok = len(resumes) == 1
+        # mitmproxy intercepts the same flow again for its response; the main process has not answered yet
+        addon.response(flow)
+        other = make_flow("https://www.example.invalid/other")
+        if filler == "replay":
+            fc.to_proxy_queue.put(("replay", None, other.get_state()))
+        elif filler == "callback_unknown":
+            fc.to_proxy_queue.put(("callback", "flow-that-is-gone", other.get_state()))
+        elif filler == "preempt_unknown":
+            fc.to_proxy_queue.put(("preempt", "flow-that-is-gone", other.get_state()))
+        else:
+            fc.to_proxy_queue.put(("bogus", "x", other.get_state()))
+        pump_mitm(addon)
+        ctx.count("mitm_history_runs")
+        ctx.ev()
+        if not ok or len(resumes) != 1:
+            ctx.violation("mitm-resumed-without-hand-back:" + filler, "an intercepted flow was resumed although the main process had "
+                          "not handed it back (an unrelated queue item resumed it)", {"filler": filler, "resumes": len(resumes)})
+        fc.to_proxy_queue.put(("callback", flow.id, flow.get_state()))
+        pump_mitm(addon)
+        if len(resumes) != 2:
+            ctx.violation("mitm-resume-count:history:" + filler, "the intercepted flow was not resumed exactly once per hand-back",
+                          {"filler": filler, "resumes": len(resumes), "expected": 2})
+        ctx.nontrivial(("mitm-history", filler))
+    # the same inside one pump run (items queued back to back)
+    for filler in ("replay", "callback_unknown"):
+        fc = PicklingFlowContext()
+        addon = IPCInterceptionAddon(fc)
+        flow = make_flow("https://www.example.invalid/b", resp=True, resp_content=b"server body")
+        resumes = []
+        flow.resume = lambda: resumes.append(1)
+        addon.request(flow)
+        other = make_flow("https://www.example.invalid/other")
+        fc.to_proxy_queue.put(("callback", flow.id, flow.get_state()))
+        fc.to_proxy_queue.put(("replay", None, other.get_state()) if filler == "replay" else ("callback", "gone", other.get_state()))
+        pump_mitm(addon, rounds=6)
+        ctx.count("mitm_history_runs")
+        ctx.ev()
+        if len(resumes) != 1:
+            ctx.violation("mitm-resume-count:burst:" + filler, "a flow was not resumed exactly once for its one hand-back when another "
+                          "queue item followed immediately", {"filler": filler, "resumes": len(resumes)})
+        ctx.nontrivial(("mitm-burst", filler))
+
+
 def mitm_view(flow):
     req, resp = flow.request, flow.response
     ser = flow.metadata.get("cap_data_ser")
@@ -564,6 +621,7 @@ def _server_response(kind):
 
 def mitm_side(ctx):
     mitm_variants(ctx)
+    mitm_histories(ctx)
     combos = [(k, b, on, ua) for k in URL_KINDS for b in BEHAVIOURS for on in ("request", "response")
               for ua in ("viewer", "injected", "browser")]
     ctx.rng.shuffle(combos)
